@@ -684,6 +684,9 @@ func c05Objects(c *Ctx) {
 		{"a := {\"k\": 1}\nfunc f(m) {\n  m.k := 7\n  m[\"j\"] := 8\n}\nf(a)\nprobe(\"map-parameter-by-reference#1\", a.k)\nprobe(\"map-parameter-by-reference#2\", a.j)\n", []string{"map-parameter-by-reference#1=7", "map-parameter-by-reference#2=8"}},
 		{"a := {\"k\": {\"l\": [1, {\"m\": 2}]}}\na.k.l[1].m := 5\nprobe(\"nested-path#1\", a.k.l[1].m)\na[\"k\"][\"l\"][0] := 6\nprobe(\"nested-path#2\", a.k.l[0])\nprobe(\"nested-path#3\", a[\"k\"].l[-1][\"m\"])\n", []string{"nested-path#1=5", "nested-path#2=6", "nested-path#3=5"}},
 		{"m := {1: \"a\"}\nm[1] := \"b\"\nprobe(\"number-key-write-then-read\", m[1])\nprobe(\"number-key-len\", len(m))\n", []string{`number-key-write-then-read="b"`, "number-key-len=1"}},
+		// a map holding the number key 1 and the string key "1": whatever entry a write goes to, the same expression reads it back
+		{"m := {1: \"num\", \"1\": \"str\"}\nm[1] := \"new\"\nprobe(\"both-key-kinds#1\", m[1])\nm[\"1\"] := \"s2\"\nprobe(\"both-key-kinds#2\", m[\"1\"])\n", []string{`both-key-kinds#1="new"`, `both-key-kinds#2="s2"`}},
+		{"m := {\"1\": \"str\", 1: \"num\"}\nn := m\nn[1] := \"new\"\nprobe(\"both-key-kinds#3\", m[1])\nk := {\"inner\": m}\nk.inner[1] := \"deep\"\nprobe(\"both-key-kinds#4\", k.inner[1])\n", []string{`both-key-kinds#3="new"`, `both-key-kinds#4="deep"`}},
 		{"m := {}\nm[1] := \"b\"\nm[\"s\"] := \"c\"\nprobe(\"new-keys#1\", m[1])\nprobe(\"new-keys#2\", m[\"s\"])\nprobe(\"new-keys#3\", m.s)\nprobe(\"new-keys#4\", len(m))\n", []string{`new-keys#1="b"`, `new-keys#2="c"`, `new-keys#3="c"`, "new-keys#4=2"}},
 		{"i := 1\na := [1, 2, 3]\na[i] := 9\nprobe(\"variable-index#1\", a[i])\nprobe(\"variable-index#2\", a[1])\nm := {\"x\": 1}\nk := \"x\"\nm[k] := 5\nprobe(\"variable-key\", m.x)\n", []string{"variable-index#1=9", "variable-index#2=9", "variable-key=5"}},
 	}
